@@ -530,6 +530,7 @@ def check(repo, run, tier):
     g(unitrules.namespace_assembly, repo, run, 'C01.R10')
     g(unitrules.tag_spec, repo, run, 'C01.R2', ['!null'])
     g(unitrules.make_node_table, repo, run, 'C01.R1c')
+    g(unitrules.constructor_arguments, repo, run, 'C01.R1c')
     g(unitrules.metadata_syntax_table, repo, run, 'C01.R7')
     g(unitrules.parse_errors, repo, run, 'C01.R6')
     g.done()
@@ -539,6 +540,8 @@ def mutants(repo):
     return [
         Mutant('parsing-error-without-node', lambda r: in_func(r, 'yaml.parse', "raise errors.ParsingError(str(e), node=None, path=None) from e", "raise errors.ParsingError(str(e), path=None) from e"), ['C01.R6']),
         Mutant('metadata-end-not-found', lambda r: in_func(r, 'yaml._get_metadata_end', "        if end == -1:", "        if end != -1:"), ['C01.R7']),
+        Mutant('constructor-swaps-loader-and-node', lambda r: in_func(r, 'yaml._xref_constructor', "_make_node(loader, node,", "_make_node(node, loader,"), ['C01.R1c']),
+        Mutant('constructor-returns-nothing', lambda r: in_func(r, 'yaml._none_constructor_md', "    return _make_node(", "    _make_node("), ['C01.R1c']),
         Mutant('mapping-arguments-dropped', lambda r: in_func(r, 'yaml._make_node', "        kwargs.update(data)\n        return node_type(**kwargs)", "        return node_type(**kwargs)"), ['C01.R1c']),
         Mutant('namespace-members-stay-on-class', lambda r: in_func(r, 'NamespaceableMeta.__init__', "                    delattr(cls, name)\n", "                    pass\n"), ['C01.R10']),
         Mutant('metadata-fields-not-extracted', lambda r: in_func(r, 'yaml._decode_metadata', "        if special in metadata:", "        if special not in metadata:"), ['C01.R2']),
